@@ -135,6 +135,18 @@ pub fn run_c13(cx: &mut Cx) {
             }
         });
         deliver(cx, holder, issued.clone(), (*issued).clone(), "none".into(), single);
+        // the single-attribute API is given the issuer's whole base set (it uses the first base):
+        // verification with the very base set the signature was made with
+        if single {
+            let (k9, iss9) = (key.clone(), issued.clone());
+            cx.step(holder, "verify-single-with-the-whole-base-set", StepOpts::default(), move || {
+                let sig = sig_from_parts(&iss9.e, &iss9.s, &iss9.v).ok_or("construct")?;
+                Ok::<_, String>(sig.verify(&k9.pk, &k9.bases, &CL03Message::new(iss9.msgs[0].clone())))
+            }, move |cx, st| {
+                cx.eval(&[b"single-whole-base-set", &[0]], true);
+                match st.out { Ok(Ok(true)) => cx.count("verdict.MustAccept.accept"), other => cx.violation("C13", "verify/MustAccept-not-accepted/whole-base-set".into(), format!("sign(pk, sk, bases, m) then verify(pk, bases, m) with the same {}-element base set: {other:?}", MAX_ATTR)) }
+            });
+        }
         // a valid signature on the same statement whose v has a leading zero octet (to_bytes writes v
         // at its natural length): it must survive its byte encoding and verify like any other
         if let Some((e2, s2, v2, k)) = short_v_variant(&issued.pk, &issued.e, &issued.s, &issued.v) {
